@@ -377,6 +377,9 @@ def run(ctx):
         shutil.copy(PROPS / "Prop_C16.v", rd / "Prop_C16.v")
         ctx.prove(rd / "Prop_C16.v", "Prop_C16.v (22 theorems; part B re-proved against regenerated Gen_schema.v / Gen_defaults.v)",
                   "theorem-file", extra_Q=[(rd, "CijGen")])
+    # static tie: config.py re-translated and proved equal to the hand-written merge / read_config models
+    from props import config_static
+    config_static.static_tie(ctx, rd)
 
     # ---------------------------------------------------------------- 3. run the implementation
     import cij.io.config.config as C
